@@ -17,6 +17,7 @@ SPEC = {
         "a covered cycle; (f) the error path returns the very vectors filled during the call; (g) cursor and "
         "streams live in the communicator and are written only by the accounting sites (C02)."
         " Also: Err(TimedOut) is built only under the clock test or when all three ready flags are false; the cursor is persisted before any return; posix::poll returns a positive count at once, returns 0 only when the armed timeout was not clipped or the deadline passed, and re-arms only when nothing was ready and the timeout was clipped."
+        " The deadline is computed with Instant::checked_add (an unrepresentable deadline = none): R04.3 reported D16 on the pinned tree."
     ),
     "not_decided": "the numeric latency bound (\"t plus one I/O step\"), millisecond granularity, Instant overflow for absurd limits.",
     "trusted_base": ["rustc MIR", "poll(2): POLLERR/POLLHUP/POLLNVAL are reported even if not requested; timeout -1 blocks indefinitely",
@@ -108,18 +109,37 @@ def run(ctx):
 
         def now_plus(t_, limit_pred):
             return t_[0] == "call" and "Add" in t_[1] and t_[2][0][0] == "call" and t_[2][0][1] == "std::time::Instant::now" and limit_pred(t_[2][1])
-        if d[0] == "call" and d[1] == "std::option::Option::<T>::map":
+        overflow_safe = True
+        def now_checked(t_, limit_pred):
+            return t_[0] == "call" and t_[1] in ("std::time::Instant::checked_add",) and M.noref(t_[2][0])[0] == "call" and M.noref(t_[2][0])[1] == "std::time::Instant::now" and limit_pred(t_[2][1])
+        if d[0] == "call" and d[1] in ("std::option::Option::<T>::map", "std::option::Option::<T>::and_then"):
             ok = M.noref(d[2][0]) == tl and d[2][1][0] == "agg" and d[2][1][1][0] == "closure"
             if ok:
                 cf = prog.fns[d[2][1][1][1]]
-                ok = now_plus(M.Terms(cf).local(0), lambda x: x == ("param", 2, cf.local_name(2)))
+                r0_ = M.Terms(cf).local(0)
+                isarg = lambda x: x == ("param", 2, cf.local_name(2))
+                if d[1].endswith("and_then"):
+                    ok = now_checked(r0_, isarg)      # None (a limit that cannot be represented) = no deadline: it can never expire
+                else:
+                    ok = now_plus(r0_, isarg)
+                    overflow_safe = False
         else:
             # explicit match: Some(now + limit) | None
             al = M.alts(d)
             somes = [a_ for a_ in al if a_[0] == "agg" and a_[1][:3] == ("adt", "std::option::Option", "Some")]
             nones = [a_ for a_ in al if a_ == ("agg", ("adt", "std::option::Option", "None"), ())]
-            ok = len(somes) == 1 and len(somes) + len(nones) == len(al) and now_plus(somes[0][2][0], lambda x: M.noref(x) == ("field", ("downcast", tl, "Some"), "0"))
+            is_payload = lambda x: M.noref(x) == ("field", ("downcast", tl, "Some"), "0")
+            chk = [a_ for a_ in al if now_checked(a_, is_payload)]
+            if len(chk) == 1 and len(chk) + len(nones) == len(al):
+                ok = True                      # Some(t) => now.checked_add(t), None => None
+            else:
+                ok = len(somes) == 1 and len(somes) + len(nones) == len(al) and now_plus(somes[0][2][0], is_payload)
+                overflow_safe = False
     ctx.ob("R04.3", "deadline=now+time_limit.once", ok, cr.loc(0), "Communicator::read computes the deadline once (no loop) as Instant::now() + time_limit and passes it down")
+    # "for any t from zero up to durations far beyond the OS poll limit": `Instant + Duration` panics when the sum is not representable
+    # (Duration::MAX, u64::MAX seconds — the usual spellings of 'no limit'); the addition must be the checked one
+    ctx.ob("R04.3", "deadline-addition-cannot-overflow", bool(ok) and overflow_safe, cr.loc(0),
+           "the deadline must be computed with Instant::checked_add (an unrepresentable deadline = no deadline): `Instant::now() + time_limit` panics for limits such as Duration::MAX")
     rr = prog.one("communicate::raw::RawCommunicator::read")
     Tr = M.Terms(rr)
     c = rr.calls_to(lambda f: M.callee_str(f) == RI)
